@@ -942,6 +942,12 @@ def _graph_unflatten(
         variable.update_from_state(value)
       else:
         variable.raw_value = value
+        # a raw leaf carries no metadata: the graphdef has the metadata the
+        # Variable had when the graph was flattened
+        if variable._var_metadata != variabledef.metadata:
+          object.__setattr__(
+            variable, '_var_metadata', dict(variabledef.metadata)
+          )
     else:  # variabledef.index not in index_ref_cache
       # variable reference does not exist outside, create a new one
       if isinstance(value, Variable):
